@@ -8,6 +8,8 @@
 #        connect-2xx-length-kept-for-chunked
 #        the grace period on the clock (caught by the phase of grace.go): grace-timer-at-tunnel-start
 #        grace-timer-after-last-finish grace-period-halved grace-timer-not-cancelled grace-close-only-first-leg
+#        leg capabilities / limits on established tunnels (legs.go, longevity.go): closewrite-error-closes close-when-no-closewrite
+#        read-deadline-not-cleared write-deadline-not-cleared http-dial-deadline-on-conn socks-dial-deadline-on-conn
 # BASE_PATCH=<file> (optional): a patch applied after the reset and before the mutation (a repair that
 # is not committed in /repo yet, e.g. the one of F29 while it is under review).
 set -e
@@ -166,6 +168,34 @@ elif m=='grace-close-only-first-leg':     # the forced close leaves the other le
     assert old in s
     s=s.replace(old,"\tcc[0].close(ctx)")
 open(p,'w').write(s)
+PY
+ ;;
+ closewrite-error-closes|close-when-no-closewrite|read-deadline-not-cleared|write-deadline-not-cleared|http-dial-deadline-on-conn|socks-dial-deadline-on-conn)
+   M="$1" python3 - <<'PY'
+import os
+wt=os.environ['WT']
+m=os.environ['M']
+def edit(path, old, new):
+    p=wt+'/'+path
+    s=open(p).read()
+    assert s.count(old)==1, (path, old)
+    open(p,'w').write(s.replace(old,new))
+if m=='closewrite-error-closes':      # a CloseWrite that reports an error: "give up" on the leg
+    edit('internal/martian/copy.go','\tif closeErr != nil {\n','\tif closeErr != nil {\n\t\tc.close(ctx)\n')
+elif m=='close-when-no-closewrite':   # no CloseWrite anywhere: Close the leg instead (the family of seed c03-5)
+    edit('internal/martian/copy.go','\t\tlog.Error(ctx, "cannot close write side of tunnel", "name", c.name, "type", fmt.Sprintf("%T", c.dst))\n',
+         '\t\tc.close(ctx)\n')
+elif m=='read-deadline-not-cleared':  # the request's ReadTimeout stays armed on the tunnel (what ced4586 repaired)
+    edit('internal/martian/proxy_conn.go','\tif deadlineErr := p.conn.SetReadDeadline(time.Time{}); deadlineErr != nil {\n\t\tlog.Error(ctx, "can\'t clear read deadline", "error", deadlineErr)\n\t}\n\n\tlog.Debug(ctx, "switched protocols',
+         '\tlog.Debug(ctx, "switched protocols')
+elif m=='write-deadline-not-cleared': # the reply's WriteTimeout stays armed on the client leg
+    edit('internal/martian/proxy_conn.go','\t\t\tif deadlineErr := p.conn.SetWriteDeadline(time.Time{}); deadlineErr != nil {','\t\t\tif deadlineErr := error(nil); deadlineErr != nil {')
+elif m=='http-dial-deadline-on-conn': # the upstream proxy dialer's Timeout as a deadline on the connection, never cleared
+    edit('dialvia/http.go','\tif d.proxyURL.Scheme == "https" {\n\t\tconn = tls.Client(conn, d.tlsConfig)\n\t}\n',
+         '\tif d.Timeout > 0 {\n\t\tconn.SetDeadline(time.Now().Add(d.Timeout))\n\t}\n\tif d.proxyURL.Scheme == "https" {\n\t\tconn = tls.Client(conn, d.tlsConfig)\n\t}\n')
+elif m=='socks-dial-deadline-on-conn': # the same for the SOCKS5 dialer, read side only
+    edit('dialvia/socks5.go','\treturn sdctx.DialContext(ctx, network, addr)\n',
+         '\tconn, err := sdctx.DialContext(ctx, network, addr)\n\tif err == nil && d.Timeout > 0 {\n\t\tconn.SetReadDeadline(time.Now().Add(d.Timeout))\n\t}\n\treturn conn, err\n')
 PY
  ;;
  *) echo "unknown mutation $1"; exit 2;;
